@@ -70,6 +70,7 @@ def run(F, R, ctx):
     opcode_rewrite_rule(F, R)
     traversal_rule(F, R)
     fold_roundtrip_rule(F, R)
+    elision_veto_rule(F, R)
 
 
 # the walkers whose result decides how an assigned variable is compiled: they must see every sub-expression
@@ -596,3 +597,49 @@ def fold_roundtrip_rule(F, R):
                    "%s), which treats the first quote it meets as the enclosing one and strips it: '(a 'b) becomes (a b) "
                    "wherever the constant folder looks at it" % (f.short(), cb["line"]), f.loc(cb["line"]), sample=True)
     R.floor("C01.q", "conversions of the inside of a quote form", m, 1)
+
+
+# the constant folder's two scope-elision sites (confirmed by reading): each splices the body of a scope whose bindings are
+# all constants and unused into the enclosing scope
+ELISION_SITES = {
+    "visit_let": "a let whose bindings folded away is replaced by its body",
+    "visit_list": "an immediately applied lambda whose arguments folded away is replaced by its body",
+}
+
+
+def elision_veto_rule(F, R):
+    R.rule("C01.e", "a define inside a scope vetoes eliding that scope, whatever else holds: each of the constant folder's "
+                    "scope-elision sites (ConstantEvaluator::visit_let, ::visit_list) branches on the flag "
+                    "ConstantEvaluator.scope_contains_define itself — a direct test of the loaded field, or a call of a "
+                    "helper that reads nothing of the evaluator but that flag. A test that lets other state (nesting depth, "
+                    "…) override the flag splices a body containing a define into the enclosing scope, where it rebinds a "
+                    "parameter or outer local of the same name")
+    n = 0
+    for meth, what in sorted(ELISION_SITES.items()):
+        fn = F.one(r"\{impl ConsumingVisitor for ConstantEvaluator(<'a>)?\}::%s$" % meth)
+        direct = False
+        for i, b in enumerate(fn.blocks):
+            if b["c"] or b["k"] != "switch" or b["on"] != "bool":
+                continue
+            pl = (b.get("place") or "").strip("()*")
+            if any(e[0] == "mv" and e[1] == pl and re.search(r"\.scope_contains_define$", e[2]) for e in b["e"]):
+                direct = True
+        via = None
+        if not direct:
+            for i, cb in fn.calls():
+                h = F.fns.get(cb["callee"])
+                if h is None or not re.search(r"\{impl ConstantEvaluator(<'a>)?\}::", cb["callee"]) or h.d.get("out") != "bool":
+                    continue
+                flds = set(e[2] for _, e in lib.deep_events(F, h, "fld", depth=1) if e[1] == "ConstantEvaluator")
+                if "scope_contains_define" in flds:
+                    via = (lib.short_name(cb["callee"]), sorted(flds - {"scope_contains_define"}))
+        n += 1
+        ok = direct or (via is not None and not via[1])
+        R.inst("C01.e", "ConstantEvaluator::%s / elision is vetoed by scope_contains_define alone" % meth, ok,
+               "ConstantEvaluator::%s (%s) %s: a scope that contains a define can then be elided, and the define rebinds a "
+               "variable of the enclosing function — (define (f total items) (let ((p 2)) (define total (length items)) …) total) "
+               "returns the inner value" % (meth, what,
+                                            "no longer tests the flag scope_contains_define" if via is None else
+                                            "tests the flag through %s, which also consults %s" % (via[0], ", ".join(via[1]))),
+               fn.loc(), sample=True)
+    R.floor("C01.e", "scope-elision sites", n, 2)
